@@ -1,5 +1,6 @@
 """C11 - lookup hints are invisible; timestamps are never silently misplaced."""
 from vf.runner import Ob
+from .common import _ned
 
 LEVEL = "model_checking"
 SYNC = "chartparse.sync.BPMEvents."
@@ -29,7 +30,7 @@ def obligations(tier):
     obs.append(Ob("C11.note_chain", "CH", "harness.h_integrated", "note_section_any_order", 1200, {"VF_IDX": "0,1"},
                   funcs=("chartparse.instrument.InstrumentTrack.from_chart_lines",), bounds="2 note lines in arbitrary tick order: ValueError or correct times"))
     obs.append(Ob("C11.constructor_hints", "CH", "harness.h_events", "constructor_dataflow", 300, {"VF_KIND": 2}, funcs=("chartparse.instrument.TrackEvent.from_parsed_data",)))
-    obs.append(Ob("C11.note_event_dataflow", "CH", "harness.h_instrument", "note_event_dataflow", 600, funcs=("chartparse.instrument.NoteEvent.from_parsed_data",)))
+    obs += _ned("C11.note_event_dataflow", tier, ("chartparse.instrument.NoteEvent.from_parsed_data",), quick=("0,1", "1,5"))
     return obs
 
 LEVEL_TEXT = ("Bounded symbolic execution (CrossHair/z3) of the real lookup and constructor code: for every "
